@@ -275,6 +275,11 @@ def cases(tier, seed):
         for p, m in combos_r:
             out.append({"id": "reorder:%s:%s:%s" % (fid, p, m), "op": "reorder", "path": r["path"], "member": r.get("member"),
                         "perm": p, "mode": m, "seed": seed, "thorough": T})
+        # recalcBBoxes=False: the stored (scaled) boxes and derived header fields are what gets written
+        if T:
+            combos_s += [(t, "bin-keepbbox") for t in (TARGETS if not (big or "/aots/" in r["path"]) else TARGETS[i % 6:i % 6 + 1])]
+        elif r.get("outlines") == "glyf" or i % 5 == 0:
+            combos_s.append((TARGETS[(i + seed + 1) % 6], "bin-keepbbox"))
         if not T and r["numGlyphs"] > 1000:
             combos_s = []      # scale_upem itself needs ~15 s on such a font (visitor over every charstring token)
         for t, m in combos_s:
@@ -288,6 +293,31 @@ def cases(tier, seed):
         cid = "reorder:%s:%s:%s" % (path, p, m)
         if cid not in have:
             out.append({"id": cid, "op": op, "path": path, "member": None, "perm": p, "mode": m, "seed": seed, "thorough": T})
+    # generated fonts: every GSUB/GPOS lookup type, plain and wrapped in Extension subtables; composites
+    # (nested, transformed, anchored), variable composites
+    gens = []
+    n_lay = 12 if T else 4
+    for gi in range(n_lay):
+        gens.append({"kind": "layout", "i": gi, "params": {"ext": gi % 4 != 3}})
+    for gi in range(6 if T else 2):
+        gens.append({"kind": "ttcomp", "i": gi, "params": {"anchors": False}})
+        gens.append({"kind": "ttvar", "i": gi, "params": {"hvar": ["none", "map", "direct"][gi % 3]}})
+    bmodes = ["bin-default", "bin-lazy", "bin-eager"]
+    for n, g in enumerate(gens):
+        label = "gen:%s:%d:%s" % (g["kind"], g["i"], ",".join("%s=%s" % kv for kv in sorted(g["params"].items())))
+        if T:
+            cr = [(p, m) for p in PERMS for m in bmodes]
+            cs_ = [(t, m) for t in TARGETS for m in bmodes + ["bin-keepbbox"]]
+        else:
+            k = n + seed
+            cr = [(PERMS[(k + j) % 4], bmodes[(k + j) % 3]) for j in range(4 if g["kind"] == "layout" else 1)]
+            cs_ = [(TARGETS[k % 6], bmodes[k % 3]), (TARGETS[(k + 1) % 6], "bin-keepbbox")]
+        for p_, m in cr:
+            out.append({"id": "reorder:%s:%s:%s" % (label, p_, m), "op": "reorder", "path": label, "member": None, "gen": g,
+                        "perm": p_, "mode": m, "seed": seed, "thorough": T})
+        for t, m in cs_:
+            out.append({"id": "scale:%s:%s:%s" % (label, t, m), "op": "scale", "path": label, "member": None, "gen": g,
+                        "target": t, "mode": m, "seed": seed, "thorough": T})
     # scaling a font opened with lazy=True whose GPOS has arrays of more than 8 fixed-size records
     # (read lazily as LazyList): every record must still be visited
     for path, t in (("merge/data/CFFFont2.ttx", "double"), ("merge/data/CFFFont2.ttx", "ratio"),
@@ -306,13 +336,23 @@ def _tech(font):
     return "CFF2" if "CFF2" in font else "CFF " if "CFF " in font else "glyf" if "glyf" in font else "none"
 
 
-def _prepare(ctx, path, member):
-    """-> dict with plain-sfnt bytes B0 carrying the PUA cmap, and an inspection font."""
-    key = (path, member)
+def _gen_bytes(gen, seed):
+    """Seeded generated font (vmon.gen.c17_fonts.layout / vmon.gen.c05_fonts builders)."""
+    grnd = random.Random("c17-gen/%s/%s/%s" % (gen["kind"], gen["i"], seed))
+    if gen["kind"] == "layout":
+        from vmon.gen import c17_fonts
+        return c17_fonts.layout(grnd, **gen.get("params", {}))
+    from vmon.gen import c05_fonts
+    return c05_fonts.build(gen["kind"], grnd, **gen.get("params", {}))
+
+
+def _prepare(ctx, path, member, gen=None, seed=0):
+    """-> plain-sfnt bytes B0 carrying the PUA cmap."""
+    key = (path, member, seed if gen else None)
     if key in _prep_cache:
         return _prep_cache[key]
     with ctx.lib("load"):
-        data = corpus.font_bytes(path, member)
+        data = _gen_bytes(gen, seed) if gen else corpus.font_bytes(path, member)
         f = corpus.open_bytes(data)
         if f.flavor:
             f.flavor = None
@@ -334,8 +374,9 @@ def _load_subject(ctx, case, B0):
             corpus.fix_glyph_names(f)
             corpus.add_pua(f)
         else:
-            lazy = {"bin-default": None, "bin-lazy": True, "bin-eager": False}[mode]
-            f = corpus.open_bytes(B0, lazy=lazy)
+            lazy = {"bin-default": None, "bin-lazy": True, "bin-eager": False, "bin-keepbbox": None}[mode]
+            kw = {"recalcBBoxes": False} if mode == "bin-keepbbox" else {}
+            f = corpus.open_bytes(B0, lazy=lazy, **kw)
             corpus.fix_glyph_names(f)
     return f
 
@@ -592,7 +633,7 @@ def _permute(kind, order, rnd):
 def _run_reorder(case, ctx, rnd):
     from fontTools.ttLib.reorderGlyphs import reorderGlyphs
 
-    B0 = _prepare(ctx, case["path"], case.get("member"))
+    B0 = _prepare(ctx, case["path"], case.get("member"), case.get("gen"), case["seed"])
     mode = case["mode"]
     if mode == "ttx":
         ref = _load_subject(ctx, case, B0)
@@ -1013,6 +1054,13 @@ class _Budget:
             tot += abs(_scalar({t: tuple(v) for t, v in tv.axes.items()}, loc))
         return tot
 
+    def has_transform(self, name, depth=0):
+        g = self.glyf[name]
+        if not g.isComposite() or depth > 16:
+            return False
+        return any(hasattr(c, "transform") or hasattr(c, "firstPt") or
+                   (c.glyphName in self.glyf.glyphs and self.has_transform(c.glyphName, depth + 1)) for c in g.components)
+
     def has_iup(self, name, depth=0):
         for tv in self.gvar.get(name, []):
             if any(c is None for c in tv.coordinates[:-4]):
@@ -1040,6 +1088,9 @@ class _Budget:
                 if hasattr(c, "firstPt"):
                     # anchored by points: offset = difference of two budgeted points
                     b = max(b, rows * cb * 2 + cb + own)
+                elif hasattr(c, "transform") and c.flags & 0x0800:
+                    # SCALED_COMPONENT_OFFSET: the rounded offset is transformed as well
+                    b = max(b, rows * (cb + own))
                 else:
                     b = max(b, rows * cb + own)
             budget = b if b else own
@@ -1135,10 +1186,46 @@ def _all_int(rec):
 UNIT_FREE = ["cmap", "name", "fvar", "avar", "STAT", "GSUB", "gasp", "cvt ", "fpgm", "prep", "hdmx", "LTSH", "meta", "CPAL", "maxp"]
 
 
+def _memory_boxes(font, order):
+    """{name: (kind, xMin, yMin, xMax, yMax)} as held by the glyf table object"""
+    glyf = font["glyf"]
+    out = {}
+    for name in order:
+        g = glyf[name]
+        kind = "composite" if g.isComposite() else "empty" if g.numberOfContours == 0 else "simple"
+        if kind == "composite" and any(c.glyphName in glyf.glyphs and glyf[c.glyphName].isComposite() for c in g.components):
+            kind = "nested"
+        out[name] = (kind,) + tuple(getattr(g, a, None) for a in ("xMin", "yMin", "xMax", "yMax"))
+    return out
+
+
+def _compare_memory_boxes(ctx, case, b0, b1, U, U1, mode):
+    """scale_upem scales the stored box of every glyph directly (one rounding per value)."""
+    sF = Fraction(U1, U)
+    tol = Fraction(0) if U1 % U == 0 else Fraction(1, 2)
+    bad = Counter()
+    first = {}
+    for name, (kind, *v0) in b0.items():
+        kind1, *v1 = b1[name]
+        ctx.judged()
+        for a, b in zip(v0, v1):
+            if (a is None) != (b is None) or (a is not None and abs(b - sF * a) > tol):
+                bad[kind] += 1
+                first.setdefault(kind, (name, v0, v1))
+                break
+    for kind, n in bad.items():
+        name, v0, v1 = first[kind]
+        how = "unscaled" if v0 == v1 else "wrong"
+        ctx.violation({"op": "scale", "tech": "glyf", "kind": "glyph-bbox", "where": "memory", "glyph": kind, "how": how},
+                      "%s [upem %d -> %d, %s]: in-memory bounding box of %d %s glyphs not scaled; e.g. %r %r -> %r"
+                      % (case["path"], U, U1, mode, n, kind, name, v0, v1),
+                      {"font": case["path"], "glyph": name, "upem": U, "new_upem": U1, "load": mode})
+
+
 def _run_scale(case, ctx, rnd):
     from fontTools.ttLib.scaleUpem import scale_upem
 
-    B0 = _prepare(ctx, case["path"], case.get("member"))
+    B0 = _prepare(ctx, case["path"], case.get("member"), case.get("gen"), case["seed"])
     mode = case["mode"]
     ref = _load_subject(ctx, case, B0)
     order = list(ref.getGlyphOrder())
@@ -1164,9 +1251,19 @@ def _run_scale(case, ctx, rnd):
     tabs = sorted(t for t in subj.keys() if t != "GlyphOrder")
     extra = {"load": mode, "tech": tech}
     _cur["obs"] = Counter()
+    boxes0 = None
+    if tech == "glyf":
+        # in-memory bounding boxes of every glyph, read from a twin so the subject is not disturbed
+        twin = _load_subject(ctx, case, B0)
+        with ctx.lib("read-glyph-boxes"):
+            boxes0 = _memory_boxes(twin, order)
     try:
         with ctx.lib("scale_upem", **extra):
             scale_upem(subj, target)
+        if boxes0 is not None:
+            with ctx.lib("read-glyph-boxes"):
+                boxes1 = _memory_boxes(subj, order)
+            _compare_memory_boxes(ctx, case, boxes0, boxes1, U, target, mode)
         with ctx.lib("save-after-scale", **dict(extra, colr="COLR" in tabs)):
             B1 = corpus.save_bytes(subj)
     except Exception as e:
@@ -1375,9 +1472,13 @@ def _compare_scaled(ctx, case, rnd, R0, B1, order, tech, tabs, mode, U, U1, T0):
                     how = "unscaled" if v1 == v0 else "scaled-twice" if abs(v1 - sF * sF * v0) <= 0.5 else "wrong"
                     viol("metric", "%s.%s %r -> %r, expected %s" % (tag, k, v0, v1, float(sF * v0)), field="%s.%s" % (tag, k), how=how)
             elif k in ST.DERIVED.get(tag, ()):
-                if tech != "glyf":
+                if mode == "bin-keepbbox":
+                    # recalcBBoxes=False: the compiler keeps the values scale_upem stored (one rounding each)
+                    tol_m = 0.0 if int_factor else 0.5
+                elif tech != "glyf":
                     continue      # recomputed from charstring bounds: relative operands accumulate
-                tol_m = 0.0 if (int_factor and exact_font) else 2 * comp_budget + 1.5
+                else:
+                    tol_m = 0.0 if (int_factor and exact_font) else 2 * comp_budget + 1.5
                 if abs(v1 - sF * v0) > tol_m:
                     viol("metric", "%s.%s %r -> %r, expected about %s" % (tag, k, v0, v1, float(sF * v0)), field="%s.%s" % (tag, k), how="derived")
             elif tag == "head" and k == "flags" and (v0 & ~0x2) == (v1 & ~0x2):
@@ -1453,6 +1554,50 @@ def _compare_scaled(ctx, case, rnd, R0, B1, order, tech, tabs, mode, U, U1, T0):
         except struct.error:
             c0 = c1 = None
         if c0 is not None:
+            # glyph headers (numberOfContours, bounding box) of every glyph, read by struct
+            nb = Counter()
+            ex = {}
+            if sorted(_h0) != sorted(_h1):
+                viol("glyph-bbox", "set of non-empty glyphs changed", where="saved", glyph="any", how="set")
+            else:
+                for gid in _h0:
+                    name = order[gid] if gid < len(order) else "gid%d" % gid
+                    (n0, *b0), (n1, *b1) = _h0[gid], _h1[gid]
+                    kind = "simple" if n0 >= 0 else "composite"
+                    ctx.judged()
+                    if mode == "bin-keepbbox":
+                        tol_b = 0.0 if int_factor else 0.5
+                    elif kind == "simple" or name not in B.glyf.glyphs:
+                        tol_b = 0.0 if int_factor else 0.5            # min/max of rounded = rounded min/max
+                    elif int_factor and not B.has_transform(name):
+                        tol_b = 0.0
+                    else:
+                        tol_b = B.glyf_budget(name, None)[0] + 0.5 * s + 0.5   # boxes are rounded on both sides
+                    if n0 != n1 or any(abs(y - sF * x) > tol_b + 1e-9 for x, y in zip(b0, b1)):
+                        nb[kind] += 1
+                        ex.setdefault(kind, (name, _h0[gid], _h1[gid], tol_b))
+                for kind, n in nb.items():
+                    name, a, b, tol_b = ex[kind]
+                    viol("glyph-bbox", "glyf header of %d %s glyphs not scaled; e.g. %r %r -> %r (budget %.2f)" % (n, kind, name, a, b, tol_b),
+                         where="saved", glyph=kind, how="unscaled" if a[1:] == b[1:] else "wrong", keepbbox=mode == "bin-keepbbox",
+                         witness={"glyph": name})
+            if mode == "bin-keepbbox" and not any(t in tabs for t in ("COLR", "sbix", "CBDT", "SVG ", "EBDT")):
+                # (colour glyphs get their extents from clip boxes / layers / bitmaps, not from glyf)
+                nb, ex = 0, None
+                for gid in range(H0.glyph_count):
+                    e0, e1 = H0.font.get_glyph_extents(gid), H1.font.get_glyph_extents(gid)
+                    if e0 is None or e1 is None:
+                        continue
+                    t0 = (e0.x_bearing, e0.y_bearing, e0.width, e0.height)
+                    t1 = (e1.x_bearing, e1.y_bearing, e1.width, e1.height)
+                    tol_e = 0.0 if int_factor else 1.0      # width/height are differences of two rounded values
+                    if any(abs(y - s * x) > tol_e + 1e-6 for x, y in zip(t0, t1)):
+                        nb += 1
+                        ex = ex or (order[gid] if gid < len(order) else gid, t0, t1)
+                ctx.judged()
+                if nb:
+                    viol("glyph-bbox", "HarfBuzz extents of %d glyphs not scaled; e.g. %r %r -> %r" % (nb, ex[0], ex[1], ex[2]),
+                         where="extents", glyph="any", how="wrong", keepbbox=True, witness={"glyph": ex[0]})
             ctx.judged()
             if sorted(c0) != sorted(c1):
                 viol("composite", "set of composite glyphs changed", how="set")
